@@ -28,6 +28,9 @@ CONSTANTS
   RequireH,     \* HardforkV2.RequireHeight
   EphH,         \* HardforkV2.EphemeralOutputHeight
   FoundH,       \* HardforkFoundation.Height (the one-off subsidy is paid in that block; monthly ones are beyond every bound used)
+  DevH,         \* HardforkDevAddr.Height: from there on a v1 siafund output held by the old developer address "D" may be
+                \* spent with the unlock conditions of the new developer address (key "N") - auth = "dev"
+  DevLock,      \* the time lock of those unlock conditions (they are ordinary unlock conditions: nothing spends before it)
   Reward,       \* constant coinbase (InitialCoinbase = MinimumCoinbase)
   MaxHeight,    \* bound on the tip height
   MaxTxns,      \* bound on transactions per block
@@ -151,7 +154,10 @@ V1_Siafunds(m, t) ==
   /\ \A i \in DOMAIN t.sfi : LET id == t.sfi[i].id IN
         /\ id \notin m.spends
         /\ Has1SF(m, id)
-        /\ AuthOK(t.sfi[i].auth)
+        /\ \/ AuthOK(t.sfi[i].auth)
+           \/ /\ t.sfi[i].auth = "dev"          \* the developer-address override: only for outputs of the old address, only from
+              /\ m.sf[id].addr = "D"            \* the fork height on, and only once the new conditions' own time lock has passed
+              /\ child >= DevH /\ child >= DevLock
   /\ SumF([i \in DOMAIN t.sfi |-> IF t.sfi[i].id \in DOMAIN m.sf THEN m.sf[t.sfi[i].id].val ELSE 0], DOMAIN t.sfi)
        = SumVals(t.sfo)
 V1_Formation(m, t) == \A i \in DOMAIN t.fc : LET c == t.fc[i] IN
@@ -370,6 +376,9 @@ SFTx(m, v, id, s, x) ==
      !.sfo = IF s < m.sf[id].val THEN <<Out(s, x), Out(m.sf[id].val - s, m.sf[id].addr)>> ELSE <<Out(m.sf[id].val, x)>>]
 T_SF(m) == IF "sf" \notin Templates THEN {} ELSE
   {SFTx(m, q[1], q[2], q[3], q[4]) : q \in Vers \X LiveSF(m) \X SFSplits \X Addrs}
+  \* the same through the developer-address override (v1 only, whatever the height: Txn keeps the valid ones)
+  \cup {[SFTx(m, 1, q[1], q[2], q[3]) EXCEPT !.sfi[1].auth = "dev", !.tag = "sfdev"] :
+          q \in {y \in LiveSF(m) \X SFSplits \X Addrs : 1 \in Vers /\ m.sf[y[1]].addr = "D"}}
 \* v1 formation: payout P funded by one input; valid = (renter, host), missed = (renter, host-burn, burn to the void)
 C1(P, a, ws, we, size) == LET vs == P - Tax1(P) rs == vs \div 2 hs == vs - rs burn == hs \div 3 IN
   [pay |-> P, vo |-> <<Out(rs, a), Out(hs, "B")>>, mo |-> <<Out(rs, a), Out(hs - burn, "B"), Out(burn, "V")>>,
@@ -528,6 +537,13 @@ BadCand(m) ==
         IN {[EmptyTx(2) EXCEPT !.sci = <<[id |-> q[1], auth |-> "as:" \o q[2][2] \o ":" \o ToString(q[2][1]) \o ":" \o ToString(q[2][3])]>>,
                                !.sco = <<Out(q[2][1], q[2][2])>>, !.tag = "confuse"] :
                q \in other \X {w \in own : w[1] > 0 /\ w[2] \in Owners}} ELSE {})
+\* the override used on an output that is not the old developer address's (authorisation), or before its heights (timing)
+\cup (IF "auth" \in Defects /\ 1 \in Vers /\ m.nv2 = 0 THEN
+        {[SFTx(m, 1, q[1], q[2], q[3]) EXCEPT !.sfi[1].auth = "dev", !.tag = "sf!devother"] :
+            q \in {y \in LiveSF(m) \X SFSplits \X Addrs : m.sf[y[1]].addr # "D"}} ELSE {})
+\cup (IF "timing" \in Defects /\ 1 \in Vers /\ m.nv2 = 0 THEN
+        {[SFTx(m, 1, q[1], q[2], q[3]) EXCEPT !.sfi[1].auth = "dev", !.tag = "sfdev!timing", !.slack = IF DevH > DevLock THEN DevH - child ELSE DevLock - child] :
+            q \in {y \in LiveSF(m) \X SFSplits \X Addrs : m.sf[y[1]].addr = "D"}} ELSE {})
 \cup (IF "early" \in Defects /\ 2 \in Vers THEN
         {[EmptyTx(2) EXCEPT !.res = <<[cid |-> q[1], kind |-> q[2], pf |-> "ok", ren |-> NoRen]>>, !.tag = q[2] \o "!early"] :
             q \in Live2(m) \X {"proof", "expire"}} ELSE {})
